@@ -103,7 +103,7 @@ theorem virtVal_congr (h : SameView cx cx') (t : Table) (r : Row) (c : Column) :
 
 theorem getVal_congr (h : SameView cx cx') (t : Table) (r : Row) (c : Column) :
     getVal cx t r c = getVal cx' t r c := by
-  simp only [getVal, refRow_congr h, virtVal_congr h, table_congr h]
+  simp only [getVal, refRow_congr h, virtVal_congr h, table_congr h, h.b]
 
 theorem mkView_congr (h : SameView cx cx') (t : Table) (r : Row) :
     mkView cx t r = mkView cx' t r := by
